@@ -203,6 +203,21 @@ func (r *Result) Add(f Finding) {
 	}
 }
 
+// Enough reports that the run already holds several concrete failing inputs (monitor findings with
+// distinct signatures): scenario loops that cost seconds per case stop early then — the check has its
+// replays, and a wedged implementation must not turn a quick run into an hour.
+func (r *Result) Enough() bool {
+	r.mu.Lock()
+	defer r.mu.Unlock()
+	n := 0
+	for _, f := range r.Findings {
+		if f.Kind == "monitor" {
+			n++
+		}
+	}
+	return n >= 6
+}
+
 func (r *Result) Note(s string) {
 	r.mu.Lock()
 	r.Notes = append(r.Notes, s)
